@@ -1277,6 +1277,10 @@ class ChoicePayloadDecoder(ConstructedPayloadDecoderBase):
             if not isTagged or component is eoo.endOfOctets:
                 break
 
+        if not asn1Object.isValue:
+            raise error.PyAsn1Error(
+                'No alternative inside CHOICE at %s' % (tagSet,))
+
         yield asn1Object
 
 
